@@ -440,6 +440,22 @@ none(x) <-- u(x), agg () = not() in e(x,_);
 s(x,t) <-- u(x), agg t = sum(y) in e(x,y);
 """, "agg par life", bound=4)
 
+prog("agg_empty_rel", """
+rel e(int,int) input; rel node(int) input; rel blocked(int) input; rel two(int,int); rel c3(int,int); rel s3(int,int);
+two(x,z) <-- e(x,y), e(y,z), node(z), !blocked(y);
+c3(x,n) <-- e(x,y), e(y,_), node(x), agg n = count() in blocked(y);
+s3(x,t) <-- node(x), e(x,y), node(y), agg t = sum(b) in blocked(b);
+""", "agg par life", bound=4)
+
+prog("agg_const_args", """
+const PASS = 1; const HI = 2;
+rel grade(int,int) input; rel st(int) input; rel failed(int); rel npass(int,int); rel top(int,int); rel hi(int);
+failed(s) <-- st(s), !grade(s, PASS);
+npass(s,n) <-- st(s), agg n = count() in grade(s, PASS);
+top(s,m) <-- st(s), agg m = max(g) in grade(s, g), if m >= HI;
+hi(s) <-- grade(s, g), if g == HI, !grade(s, PASS);
+""", "agg par sugar", bound=4)
+
 # ------------------------------------------------------------------------------------------------ sugar (C07)
 prog("disj", """
 rel e(int,int) input; rel f(int,int) input; rel n(int); rel r(int,int);
@@ -502,6 +518,16 @@ macro hop4(a, b) { hop2!(a, m), hop2!(m, b) }
 r(x,y) <-- hop4!(x, y);
 q(x) <-- u(x), hop2!(x, x);
 """, "mac par", bound=4)
+
+prog("mac_gensym_disj", """
+rel score(int,int) input; rel vip(int) input; rel cand(int); rel okp(int,int); rel ok3(int,int,int);
+macro good(x) { score(x, s), if s >= 1 }
+macro better(x, y) { score(x, s), score(y, t), if s > t }
+cand(x) <-- score(x,_);
+cand(x) <-- vip(x);
+okp(a,b) <-- cand(a), cand(b), (good!(a) | vip(a)), good!(b);
+ok3(a,b,c) <-- cand(a), cand(b), cand(c), good!(a), (better!(a, b) | good!(b)), better!(b, c);
+""", "mac par sugar", bound=4)
 
 prog("mac_disj", """
 rel e(int,int) input; rel f(int,int) input; rel r(int,int);
